@@ -199,5 +199,52 @@ pub trait EmitAndCount {
 //%mutant stale_rcode_high "edns.set_rcode_high(metadata.response_code.high());" => "if metadata.response_code.high() > 0 { edns.set_rcode_high(metadata.response_code.high()); }"
 //%mutant edns_not_counted "additional_count.0 += count.0;"@1 => ""
 //%end
+// ---- C03, server side: the SERVFAIL fallback of MessageResponse::encode (statement-range extraction).  When the first
+//      encoding attempt fails with an error other than "does not fit", the reply is a bare SERVFAIL header written into
+//      the SAME Vec: "decodes with no bytes left over" requires that nothing of the failed attempt survives. ----
+#[verifier::external_body]
+pub fn vp_reserve_512(buf: &mut Vec<u8>) ensures final(buf)@ == old(buf)@ { if buf.capacity() < 512 { let reserve = 512 - buf.capacity(); buf.reserve(reserve); } }
+impl<'a> BinEncoder<'a> {
+//%fn crates/proto/src/serialize/binary/encoder.rs :: impl<'a> BinEncoder<'a> :: new
+//%contract
+        requires old(buf)@.len() <= 0xFFFF
+        ensures r.wf(), r.offset == 0, r.bytes() == old(buf)@, r.max() == 0xFFFF, *final(r.buffer.buffer) == *final(buf)
+//%end
+//%fn crates/proto/src/serialize/binary/encoder.rs :: impl<'a> BinEncoder<'a> :: with_offset
+//%sub1 "private::MaximalBuf::new" => "MaximalBuf::new" # R-sel: `mod private` flattened (single-file unit)
+//%sub1 "if buf.capacity() < 512 { let reserve = 512 - buf.capacity(); buf.reserve(reserve); }" => "vp_reserve_512(buf);" # R-shim: Vec::capacity / Vec::reserve (capacity only; the contents are unchanged)
+//%contract
+        requires old(buf)@.len() <= 0xFFFF, offset as int <= old(buf)@.len()
+        ensures r.wf_buf(), r.offset == offset, r.bytes() == old(buf)@, r.max() == 0xFFFF, r.name_pointers@.len() == 0, *final(r.buffer.buffer) == *final(buf)
+//%end
+}
+impl Metadata {
+//%fn crates/proto/src/op/header.rs :: impl Metadata :: new
+//%sub1 "pub const fn" => "pub fn" # R-shim: const fn (Verus: plain fn)
+//%contract
+        ensures r.id == id, r.message_type == message_type, r.op_code == op_code, r.response_code == ResponseCode::NoError
+//%end
+}
+impl HeaderCounts { pub fn default() -> (r: HeaderCounts) ensures r.queries == 0 && r.answers == 0 && r.authorities == 0 && r.additionals == 0 { HeaderCounts { queries: 0, answers: 0, authorities: 0, additionals: 0 } } }   // #[derive(Default)]
+pub struct ResponseInfo { pub header: Header }
+impl ResponseInfo { pub fn from(header: Header) -> (r: ResponseInfo) ensures r.header == header { ResponseInfo { header } } }
+fn servfail_fallback(vp_bytes: Vec<u8>, id: u16) -> (r: Result<(), ProtoError>)
+    requires vp_bytes@.len() <= 0xFFFF
+{
+    let mut bytes = vp_bytes;
+//%expr crates/server/src/zone_handler/message_response.rs :: impl<'q, 'a, A, N, S, D> MessageResponse<'q, 'a, A, N, S, D> where A: Iterator<Item = &'a Record> + Send + 'a, N: Iterator<Item = &'a Record> + Send + 'a, S: Iterator<Item = &'a Record> + Send + 'a, D: Iterator<Item = &'a Record> + Send + 'a, :: encode :: "error!(%error, \"error encoding message\");" .. "header.emit(&mut encoder)?;"
+//%mutant failed_attempt_not_cleared "bytes.clear();" => ""
+//%mutant fallback_is_not_servfail "metadata.response_code = ResponseCode::ServFail;" => ""
+//%end
+    // C03 ("decodes with no bytes left over") / C11 (ID echoed): what the encoder -- created on the Vec that is returned
+    // to the caller right after this range (`Ok((ResponseInfo::from(header), bytes))`) -- holds now is exactly the 12-octet
+    // SERVFAIL header carrying the request's ID.  That `bytes` is the Vec the encoder wrote through is the language's
+    // borrow semantics, not re-proved here.
+    assert(encoder.bytes().len() == 12);
+    assert(hdr_bytes_at(header, encoder.bytes(), 0, 0xFF));
+    assert(header.metadata.id == id && header.metadata.response_code == ResponseCode::ServFail);
+    Ok(())
+}
+
 } // verus!
 fn main() {}
